@@ -489,6 +489,18 @@ func runSelfCheck(t *rapid.T) {
 			}
 			if len(fm.Fields) == 1 {
 				classes["single-field-block"] = true
+				withData := map[uint32]bool{}
+				for s := range data[m] {
+					withData[s>>16] = true
+				}
+				for hkey := range hk {
+					if !withData[hkey] {
+						classes["single-field-block-container-without-data"] = true // shape of SigEmptyBucket, from real memdb
+					}
+				}
+			}
+			if len(fm.Fields) == 1 && fm.Fields[0].ID != sc.Fields[m][0].ID {
+				classes["single-field-block-not-lowest-field"] = true // shape of SigSingleFieldBlock, from real memdb
 			}
 		}
 		if len(real) != len(spec.Metrics) {
